@@ -15,7 +15,7 @@ that the generated side is seen not to be degenerate (it differs between inputs 
 the kernel): `pySortCmp`, `sortAlns`, `firstPass`, `sortLines` in the `TieA24` section.  `decide +kernel` (evaluation by the kernel itself, nothing
 added to the trusted base) is used for `parseArgs` / `accepted` / `effect` on concrete command lines, as `Props/Cli.lean` does.
 -/
-namespace Gaftools.NonVacuous
+namespace Gaftools.NonVacuousD
 deriving instance DecidableEq for Except
 
 /-! ## TieA3 : collector protocol -/
@@ -606,4 +606,4 @@ example : ∃ fn kw st, CliArgs.runMain (parsedArgs ⟨false, .view { gaf_path :
 example : applyEvent CliArgs.topArguments (initialNs CliArgs.topArguments []) ("debug", .flag) = [("debug", .bool true)] := by decide
 end A26
 
-end Gaftools.NonVacuous
+end Gaftools.NonVacuousD
